@@ -19,6 +19,7 @@ Definition payload (o : op) : list Z := match o with DataReceived d => d | _ => 
 Definition data_of (r : res) : list Z := match r with RData c => c | _ => [] end.
 
 Ltac split_all :=
+  unfold send_wait_result;
   repeat match goal with
          | |- context [if ?b then _ else _] => destruct b
          | |- context [match ?x with _ => _ end] => destruct x
@@ -75,7 +76,7 @@ Proof.
       destruct (exc s); [cbn; rewrite ?app_nil_r; auto|].
       destruct (weof s); [destruct (tclosing s); cbn; rewrite ?app_nil_r; auto|].
       destruct pw; cbn; split_all; cbn; rewrite ?app_nil_r; auto.
-    + destruct f; [| destruct (mustc s t) |]; cbn; rewrite ?app_nil_r; auto.
+    + unfold send_wait_result; destruct f; [| destruct (mustc s t) |]; cbn; split_all; cbn; rewrite ?app_nil_r; auto.
     + destruct (mustc s t); cbn; rewrite ?app_nil_r; auto.
   - destruct (phase_of s t) as [|mx|mx f|item|ev f|]; try destruct f; cbn; rewrite ?app_nil_r; auto.
   - destruct d as [|b d]; [cbn; rewrite ?app_nil_r; auto|].
@@ -272,7 +273,7 @@ Proof.
       destruct (exc s); [cbn; rewrite ?Ec; auto 10|].
       destruct (weof s); [cbn; rewrite ?Ec; auto 10|].
       destruct pw; cbn; split_all; cbn; rewrite ?Ec; auto 10.
-    + destruct f; [| destruct (mustc s t) |]; cbn; auto 10.
+    + unfold send_wait_result; destruct f; [| destruct (mustc s t) |]; cbn; split_all; cbn; auto 10.
     + destruct (mustc s t); cbn; auto 10.
   - destruct (phase_of s t) as [|mx|mx f|item|ev f|]; try destruct f; cbn; auto 10.
   - destruct d as [|b d]; [cbn; auto 10|]. cbn [fst].
@@ -450,7 +451,7 @@ Proof.
       * pose proof (PW (set_g_written s (g_written s ++ item)) eq_refl eq_refl) as Q.
         revert H. split_all; cbn in *; congruence.
       * revert H. split_all; cbn; congruence.
-    + destruct f; [| destruct (mustc s t) |]; cbn in H; congruence.
+    + unfold send_wait_result in H; destruct f; [| destruct (mustc s t) |]; cbn in H; congruence.
     + destruct (mustc s t); cbn in H; congruence.
   - exfalso. destruct (phase_of s t) as [|mx|mx f|item|e f|]; try destruct f; cbn in H; congruence.
   - exfalso. destruct d as [|b d]; [cbn in H; congruence|]. cbn [fst] in H.
@@ -461,6 +462,136 @@ Proof.
     rewrite A in H. cbn in H. congruence.
   - exfalso. cbn [fst] in H. pose proof (PW s eq_refl eq_refl). congruence.
 Qed.
+
+(* ------------------------------------------------------------------------------------------ *)
+(* 5b. a send() returns normally only if the connection was not lost / closed meanwhile (HEAD, commit d2d2221) *)
+(* ------------------------------------------------------------------------------------------ *)
+Lemma lost_flags_step p s o :
+  (exc s <> None -> exc (fst (stepv p s o)) <> None) /\
+  (g_lostclean s = true -> g_lostclean (fst (stepv p s o)) = true) /\
+  (forall e, o = ConnectionLost (Some e) -> exc (fst (stepv p s o)) <> None) /\
+  (o = ConnectionLost None -> g_lostclean (fst (stepv p s o)) = true).
+Proof.
+  assert (RE : forall s0, exc (read_event_set s0) = exc s0 /\ g_lostclean (read_event_set s0) = g_lostclean s0).
+  { intros s0. unfold read_event_set. destruct (rev s0); cbn; auto. }
+  assert (WE : forall s0, exc (write_event_set s0) = exc s0 /\ g_lostclean (write_event_set s0) = g_lostclean s0).
+  { intros s0. unfold write_event_set. destruct (wval s0 (wev s0)); cbn; auto. }
+  assert (RF : forall s0 t mx, exc (fst (recv_finish s0 t mx)) = exc s0 /\
+                 g_lostclean (fst (recv_finish s0 t mx)) = g_lostclean s0).
+  { intros s0 t mx. unfold recv_finish. destruct (rq s0) as [|c r]; [cbn; auto|].
+    destruct (Nat.ltb mx (length c)); [cbn; auto|]. destruct r; cbn; auto. }
+  destruct o as [t mx|t item|t|t|t pw|t|d| |e| |]; cbn [stepv].
+  - split_all; cbn; refine (conj _ (conj _ (conj _ _))); auto; try (intros; discriminate).
+  - split_all; cbn; refine (conj _ (conj _ (conj _ _))); auto; try (intros; discriminate).
+  - split_all; cbn; refine (conj _ (conj _ (conj _ _))); auto; try (intros; discriminate).
+  - split_all; cbn; refine (conj _ (conj _ (conj _ _))); auto; try (intros; discriminate).
+  - refine (conj _ (conj _ (conj _ _))); try (intros; discriminate);
+      destruct (phase_of s t) as [|mx|mx f|item|ev f|].
+    all: try (cbn; auto; fail).
+    all: try (destruct (mustc s t); [cbn; auto|]; destruct (RF s t mx) as (A & B); rewrite ?A, ?B; auto; fail).
+    all: try (destruct f; [cbn; auto| |destruct p; cbn; auto];
+              destruct (mustc s t); [destruct p; cbn; auto|];
+              destruct (RF (set_reading s false) t mx) as (A & B); rewrite ?A, ?B; cbn; auto; fail).
+    all: try (destruct (mustc s t); [cbn; auto|]; destruct (closed s); [cbn; auto|];
+              destruct (exc s) eqn:Ex; [cbn; rewrite ?Ex; auto|]; destruct (weof s); [cbn; rewrite ?Ex; auto|];
+              destruct pw; cbn; split_all; cbn; rewrite ?Ex; auto; fail).
+    all: try (destruct f; [| destruct (mustc s t) |]; cbn; auto; fail).
+    all: try (destruct (mustc s t); cbn; auto; fail).
+  - refine (conj _ (conj _ (conj _ _))); try (intros; discriminate);
+      destruct (phase_of s t) as [|mx|mx f|item|ev f|]; try destruct f; cbn; auto.
+  - refine (conj _ (conj _ (conj _ _))); try (intros; discriminate);
+      (destruct d as [|b d]; [cbn; auto|]); cbn [fst];
+      set (sa := set_g_recv _ _); destruct (RE sa) as (A & B); rewrite ?A, ?B; unfold sa; cbn; auto.
+  - refine (conj _ (conj _ (conj _ _))); try (intros; discriminate); cbn [fst];
+      destruct (RE (set_eof s true)) as (A & B); rewrite ?A, ?B; cbn; auto.
+  - cbn [fst].
+    set (s1 := match e with Some _ => set_exc s e | None => set_g_lostclean s true end).
+    destruct (WE (read_event_set (set_tclosing s1 true))) as (A & B).
+    destruct (RE (set_tclosing s1 true)) as (A' & B').
+    rewrite A, B, A', B'. unfold s1.
+    refine (conj _ (conj _ (conj _ _))).
+    + destruct e; cbn; [intros _; discriminate|auto].
+    + destruct e; cbn; auto.
+    + intros e0 E. injection E as ->. cbn. discriminate.
+    + intros E. injection E as ->. reflexivity.
+  - cbn. refine (conj _ (conj _ (conj _ _))); auto; intros; discriminate.
+  - cbn [fst]. destruct (WE s) as (A & B). rewrite A, B.
+    refine (conj _ (conj _ (conj _ _))); auto; intros; discriminate.
+Qed.
+
+Lemma lost_flags_run p r0 ops :
+  let s := final (stepv p) (init r0) ops in
+  (forall e, In (ConnectionLost (Some e)) ops -> exc s <> None) /\
+  (In (ConnectionLost None) ops -> g_lostclean s = true).
+Proof.
+  cbn. induction ops as [|o r IH] using rev_ind.
+  - cbn. split; [intros e []|intros []].
+  - rewrite final_app. cbn. set (s := final (stepv p) (init r0) r) in *.
+    destruct (lost_flags_step p s o) as (A & B & C & D). destruct IH as (IA & IB). split.
+    + intros e H. apply in_app_or in H. destruct H as [H|[H|[]]]; [apply A, (IA e H)|apply (C e); auto].
+    + intros H. apply in_app_or in H. destruct H as [H|[H|[]]]; [apply B, IB, H|apply D; auto].
+Qed.
+
+(* HEAD: whenever a send() returns normally the stream is not closed locally and no connection error is recorded;
+   if it had to wait, the write event it waited on is set *)
+Theorem send_returns_ok_only_if_not_lost r0 s t pw s' :
+  reachv false r0 s -> is_send (phase_of s t) = true -> stepv false s (Resume t pw) = (s', RDone) ->
+  closed s = false /\ exc s = None /\
+  (forall ev f, phase_of s t = SendWait ev f -> f = FSet /\ wval s ev = true).
+Proof.
+  intros R Hs H. pose proof (reachv_inv false r0 s R) as I.
+  cbn [stepv] in H. destruct (phase_of s t) as [|mx|mx f|item|ev f|] eqn:Ep; try discriminate.
+  - destruct (mustc s t); [injection H as _ H; discriminate|].
+    destruct (closed s) eqn:Ec; [injection H as _ H; discriminate|].
+    destruct (exc s) eqn:Ex; [injection H as _ H; discriminate|].
+    refine (conj eq_refl (conj eq_refl _)). intros ev f E. discriminate.
+  - destruct f; try (injection H as _ H; discriminate).
+    destruct (mustc s t); [injection H as _ H; discriminate|].
+    unfold send_wait_result in H.
+    destruct (closed s) eqn:Ec; [injection H as _ H; discriminate|].
+    destruct (exc s) eqn:Ex; [injection H as _ H; discriminate|].
+    refine (conj eq_refl (conj eq_refl _)). intros ev' f' E. injection E as <- <-.
+    split; [reflexivity|]. apply (I_sw s I t ev FSet Ep). reflexivity.
+Qed.
+
+(* ... hence, under the transport contract "connection_lost(None) only after a local close", no connection_lost at all
+   has been delivered: a send() that waited and returned normally was released by resume_writing *)
+Theorem send_ok_never_released_by_connection_lost r0 ops t pw :
+  let s := final step (init r0) ops in
+  is_send (phase_of s t) = true -> snd (step s (Resume t pw)) = RDone ->
+  (g_lostclean s = true -> closed s = true) ->
+  forall e, ~ In (ConnectionLost e) ops.
+Proof.
+  intros s Hs H Hc e Hin.
+  assert (R : reachv false r0 s) by (exists ops; reflexivity).
+  destruct (step s (Resume t pw)) as [s' r] eqn:E. cbn [snd] in H. rewrite H in E.
+  destruct (send_returns_ok_only_if_not_lost r0 s t pw s' R Hs E) as (A & B & _).
+  destruct (lost_flags_run false r0 ops) as (L1 & L2). change (final (stepv false) (init r0) ops) with s in L1, L2.
+  destruct e as [e|].
+  - apply (L1 e Hin). exact B.
+  - rewrite (Hc (L2 Hin)) in A. discriminate.
+Qed.
+
+(* the pinned tree (before commit d2d2221): a send() released by connection_lost(exc), resp. by the connection_lost(None)
+   that follows a local aclose() of another task, returns normally *)
+Theorem send_returns_ok_only_if_not_lost_refuted_pinned :
+  (exists ops t, let s := final (stepv true) (init false) ops in
+     snd (stepv true s (Resume t false)) = RDone /\ exc s <> None /\
+     snd (stepv false (final step (init false) ops) (Resume t false)) = RBroken) /\
+  (exists ops t, let s := final (stepv true) (init false) ops in
+     snd (stepv true s (Resume t false)) = RDone /\ closed s = true /\
+     snd (stepv false (final step (init false) ops) (Resume t false)) = RClosed).
+Proof.
+  split.
+  - exists [Send 1 [7; 8]%Z; Resume 1 true; ConnectionLost (Some 0)], 1. vm_compute.
+    refine (conj eq_refl (conj _ eq_refl)). discriminate.
+  - exists [Send 1 [7; 8]%Z; Resume 1 true; Close 2; ConnectionLost None], 1. vm_compute. auto.
+Qed.
+
+Example ex_send_ok_hyp :
+  let s := final step (init false) [Send 1 [7]%Z; Resume 1 true; ResumeWriting] in
+  is_send (phase_of s 1) = true /\ snd (step s (Resume 1 false)) = RDone /\ g_lostclean s = false.
+Proof. vm_compute. auto. Qed.
 
 (* ------------------------------------------------------------------------------------------ *)
 (* 6. receive-side flow control (HEAD): reading is paused unless a receive() is suspended in its wait *)
